@@ -524,29 +524,20 @@ def parse_raw(raw):
 
 
 def documented_comments(toks):
-    """comments of a token list that precede a significant token, plus those on the last token's line"""
-    last_sig = max([i for i, t in enumerate(toks) if t[0] == "T"], default=-1)
-    out = []
-    if last_sig < 0:
-        return out          # a file without a token has no placeholder at all (it is formatted to an empty file)
-    for i, t in enumerate(toks):
-        if t[0] != "C":
-            continue
-        if i < last_sig:
-            out.append(t[2])
-        elif t[1] == "0" and all(x[0] == "C" and x[1] == "0" for x in toks[last_sig + 1:i]):
-            out.append(t[2])
-    return out
+    """the comments the formatter has to keep: ALL of them (since the repair of the comments behind the last
+    declaration also those on their own lines after the last token, and those of a file without a token)"""
+    return [t[2] for t in toks if t[0] == "C"]
 
 
 def tail_comments(toks):
-    """the comments documented_comments leaves out: behind the last significant token, from the first one that
-    starts a line (not a documented placeholder: `} <comment>` is the comment on the line of the brace)"""
-    doc = len(documented_comments(toks))
-    allc = [t[2] for t in toks if t[0] == "C"]
-    if not any(t[0] == "T" for t in toks):
+    """comments behind the last significant token from the first one that starts a line (not a documented
+    placeholder: `} <comment>` is the comment on the line of the brace): counted as a dimension"""
+    last_sig = max([i for i, t in enumerate(toks) if t[0] == "T"], default=-1)
+    if last_sig < 0:
         return []
-    return allc[doc:]
+    rest = toks[last_sig + 1:]
+    k = next((j for j, t in enumerate(rest) if t[0] == "C" and t[1] != "0"), len(rest))
+    return [t[2] for t in rest[k:] if t[0] == "C"]
 
 
 def show_toks(ts, k, width=6):
@@ -734,10 +725,6 @@ class Pipeline:
             tail = [py_restyle(conf["comment_style"], x) for x in tail_comments(tin)]
             if tail:
                 self.n_tail_inputs += 1
-            if same and tail:
-                # own-line comments behind the last declaration: recorded finding comments-after-last-token
-                self.add(i, "comments_tail", "%d comment(s) on their own lines behind the last token of the file are not printed: %r" % (
-                    len(tail), tail[0][:60]), {"facts": {"construct": "comments-after-last-token"}})
             if not same:
                 k = first_diff(cin, cout)
                 missing = [x for x in cin if cin.count(x) > cout.count(x)]
